@@ -755,10 +755,31 @@ pub fn par_y(rng: &mut Rng, size: usize, out: &mut Vec<String>) {
             }
             cap = 16 * k;
         }
-        let stop = if rng.chance(1, 4) { Some(rng.range(1, 6)) } else { None };
+        let mut stop = if rng.chance(1, 4) { Some(rng.range(1, 6)) } else { None };
+        // one case in forty: the worker of the first record is slow, the second record set is invalid, and the consumer
+        // would stop at the first record: the reader's error reaches the consumer first and has to be returned
+        let slow = !aligned && rng.chance(1, 100);
+        if slow {
+            input.clear();
+            if fmt == "fa" {
+                input.extend_from_slice(b">a one\nACGTACGT\n");
+                cap = input.len() + 2;
+                input.extend_from_slice(b">b\nAC\n>c\nGT\n");
+            } else {
+                input.extend_from_slice(b"@a one\nACGT\n+\nIIII\n");
+                cap = input.len() + 2;
+                input.extend_from_slice(b"@b\nAC\n-\nII\n@c\nGT\n+\nII\n");
+            }
+            stop = Some(1);
+        }
         // a sixth of the cases: the byte source fails at one of its first read calls (any error kind)
         // (the first or the second call: those are reached by sequential and by batch-wise reading alike)
-        let fault = if rng.chance(1, 6) { format!("@{}.{}", rng.range(1, 3), rng.below(crate::util::KINDS.len())) } else { String::new() };
+        let fault = if slow && fmt == "fa" {
+            // FASTA has no format error after the first record: the source fails at its second read call instead
+            "@2.3".to_string()
+        } else if slow {
+            String::new()
+        } else if rng.chance(1, 6) { format!("@{}.{}", rng.range(1, 3), rng.below(crate::util::KINDS.len())) } else { String::new() };
         // a third of the cases go through the set-level API (`read_parallel` + `ReusableReader`)
         // a third of the cases go through the set-level API, half of those with a non-default growth policy
         let api = match rng.below(7) {
@@ -768,6 +789,8 @@ pub fn par_y(rng: &mut Rng, size: usize, out: &mut Vec<String>) {
             2 => format!("{}4", fmt),
             _ => fmt.to_string(),
         };
+        let api = if slow { format!("{}{}", fmt, if rng.chance(1, 2) { 5 } else { 6 }) } else { api };
+        let (t, q) = if slow { (2, 2) } else { (t, q) };
         out.push(format!(
             "Y {} {} {} {} {} {}",
             api, t, q, cap, stop.map(|v| v.to_string()).unwrap_or("-".to_string()) + &fault, hex_or_dash(&input)
